@@ -388,6 +388,11 @@ def verify_unit(name, sources, rlimit=None, keep_dir=None, extra=None):
                 tags, ipath = ltags, lpath
         f.tags = tags
         f.src_path = ipath
+        if ipath and ipath in u.log.get('degraded', {}) and f.kind == 'semantic':
+            # the function was extracted without some of its proof hints (their place in the code is gone): a proof that does
+            # not go through then says nothing about the code
+            f.kind = 'other'
+            f.message = 'proof hints could not be placed (%s); then: %s' % ('; '.join(u.log['degraded'][ipath])[:200], f.message)
         short = _short(d.message)
         clause = line_text
         if short == 'requires' and d.secondary:
